@@ -12,6 +12,7 @@ def cases(tier):
         L.append(fsm_case('C14', fx, 'batch2', ['P_C14', 'ENTRY=16', 'NREQ=2', 'CB_BUDGET=0'], timeout=1200 * T, witness=True, nreq=2, budget=0))
         L.append(fsm_case('C14', fx, 'single', ['P_C14', 'ENTRY=16', 'NREQ=1', 'CB_BUDGET=0'], timeout=900 * T, witness=False, nreq=1, budget=0))
         L.append(fsm_case('C14', fx, 'two_steps', ['P_C14', 'ENTRY=18', 'CB_BUDGET=0'], timeout=1500 * T, witness=True, nreq=1, budget=0))
+    mark_cover(L, ['c14.*.single', 'c14.*.batch2'])
     return L
 
 def run(tier, seed):
